@@ -1,0 +1,51 @@
+package allocator
+
+import (
+	"net"
+	"net/netip"
+	"testing"
+)
+
+func TestReservePDRefusesPrefixOverlappingPoolNetwork(t *testing.T) {
+	alloc := NewPrefixAllocator(netip.MustParsePrefix("2001:db8:100::/62"), 64)
+	if alloc == nil {
+		t.Fatal("allocator not created")
+	}
+	r := &Registry{pdAllocators: map[string]*PrefixAllocator{"pd": alloc}}
+
+	cidr := func(s string) *net.IPNet {
+		_, n, err := net.ParseCIDR(s)
+		if err != nil {
+			t.Fatal(err)
+		}
+		return n
+	}
+
+	// a delegation of the pool is reserved in the pool
+	if err := r.ReservePD(cidr("2001:db8:100:1::/64"), "s1"); err != nil {
+		t.Fatalf("delegation of the pool refused: %v", err)
+	}
+	// a covering prefix, an enclosed one of another length: the pool cannot track them
+	for _, p := range []string{"2001:db8:100::/56", "2001:db8:100::/60", "2001:db8:100:2:100::/72"} {
+		if err := r.ReservePD(cidr(p), "s2"); err == nil {
+			t.Errorf("%s overlaps the pool network and was accepted", p)
+		}
+		if err := r.ReservePDInPool("other", cidr(p), "s2"); err == nil {
+			t.Errorf("%s overlaps the pool network and was accepted by ReservePDInPool", p)
+		}
+	}
+	// prefixes that do not touch the pool network stay accepted (static outside every pool)
+	for _, p := range []string{"2001:db8:200::/56", "2001:db8:104::/64"} {
+		if err := r.ReservePD(cidr(p), "s3"); err != nil {
+			t.Errorf("%s lies outside the pool network and was refused: %v", p, err)
+		}
+	}
+	// the pool still delegates, and never the reserved prefix
+	got, err := alloc.Allocate("s4")
+	if err != nil {
+		t.Fatal(err)
+	}
+	if got.String() == "2001:db8:100:1::/64" {
+		t.Errorf("reserved delegation handed out again")
+	}
+}
